@@ -33,8 +33,13 @@ JudgeAllowed(out, allowed) ==
 
 Failed(e) ==
   CASE e.op = "mean.ci" ->
-         LET xs == Expand(e.data.rle)
-             ys == IF "datab" \in DOMAIN e THEN Expand(e.datab.rle) ELSE <<>>
+         LET xs0 == Expand(e.data.rle)
+             ys0 == IF "datab" \in DOMAIN e THEN Expand(e.datab.rle) ELSE <<>>
+             \* the tuple-level feeders of Paired cannot express a length mismatch: the harness zips
+             zipped == e.fl = "paired" /\ e.style \in {"extend_tuple", "append_pair"}
+             m == IF Len(xs0) < Len(ys0) THEN Len(xs0) ELSE Len(ys0)
+             xs == IF zipped THEN SubSeq(xs0, 1, m) ELSE xs0
+             ys == IF zipped THEN SubSeq(ys0, 1, m) ELSE ys0
              al == AllowedFor(e.fl, xs, ys)
              \* harmonic means: the reciprocal-space interval may reach 0; then an error is allowed
              al2 == IF e.fl = "harm" /\ al.ok THEN [ok |-> TRUE, errs |-> {"*"}] ELSE al
@@ -56,7 +61,7 @@ Failed(e) ==
          LET d == PropDomain(IF e.fe = "ci_z_normal" THEN "wald" ELSE "wilson", e.n, e.k) IN
          (IF e.out.tag = "panic" THEN {"C11.no_panic"}
           ELSE IF e.out.tag = "ok" THEN {c \in {"C11.ok_allowed"} : d # "ok"}
-                                        \cup {c \in {"C11.ok_sane"} : ~(SaneF(e.out.iv) /\ In01(e.out.iv))}
+                                        \cup {c \in {"C11.ok_sane"} : ~(SaneF(e.out.iv) /\ (e.fe = "ci_z_normal" \/ In01(e.out.iv)))}   \* Wald bounds outside [0,1]: C17's business
                                         \cup {c \in {"C11.ok_kind"} : FALSE}
           ELSE {c \in {"C11.err_variant"} : e.out.variant # d})
     [] e.op = "prop.sig" ->
@@ -81,7 +86,12 @@ Failed(e) ==
          IN J(e.out) \cup J(e.out_stats)
     [] e.op = "quant.data" ->
          IF e.ty = "f64nan" \/ e.entry = "max_small"
-         THEN {}          \* documented panics (incomparable elements, capacity overflow): any outcome but a bad Ok
+         THEN \* documented panics (incomparable elements, capacity overflow): any outcome but a bad Ok
+              \* (a NaN bound is reported by the harness as the key -999)
+              LET o == e.out IN
+              IF o.tag # "ok" THEN {}
+              ELSE {c \in {"C11.ok_nan_bound"} : (o.iv.kind # "lower" /\ o.iv.lo = -999) \/ (o.iv.kind # "upper" /\ o.iv.hi = -999)}
+                   \cup {c \in {"C11.ok_sane"} : o.iv.kind = "two" /\ ~(o.iv.lo <= o.iv.hi)}
          ELSE LET d == QuantDomain(e.n, e.qa, e.qb)  o == e.out IN
               CASE o.tag = "panic" -> {"C11.no_panic"}
                 [] o.tag = "ok" -> {c \in {"C11.ok_allowed"} : "ok" \notin d}
